@@ -123,6 +123,8 @@ def run(ctx):
     # ---- R06.8 flattened geometry: each reference is reflected, rotated, then translated, parents applied outermost (C12's rules)
     from rules import C12 as c12
     c12.run(ctx.sub("R06.8", "instance transforms and flattening satisfy the transform rules of C12 (reflect, then rotate, then translate; parent-first cascade)"))
+    from rules import C13 as c13
+    c13.run(ctx.sub("R06.11", "a label names the net of the shape that contains it: the containment tests satisfy the rules of C13 (segment rectangles with flush ends, polygon structure)"))
     # ---- R06.5 error, not crash
     roots = pr.roots_by_short(F, ("gds::GdsImporter::import",))
     pr.rule_panic_free(ctx, "R06.5", roots, "Library::from_gds", scope_prefixes=["layout21raw::"], floor=5, skip_wide_signed=True)
